@@ -8,6 +8,7 @@ import (
 	cose "github.com/veraison/go-cose"
 
 	"verif/refcbor"
+	"verif/refcose"
 	"verif/tape"
 )
 
@@ -137,6 +138,14 @@ func c19Pool(r *Run, t *tape.Tape) []c19Item {
 		for j := 0; j < 3 && len(objs) > 0; j++ {
 			o := objs[t.Choose(len(objs), "c19.pool.obj")]
 			pool = append(pool, c19Item{o.B, o.Dec})
+		}
+	}
+	if t.Bool(1, 6, "c19.pool.manysigners") {
+		// a COSE_Sign with many signers (6-12 distinct COSE_Signature entries)
+		w := r.GenWire(t, TrafficOpts{Spec: SpecOpts{Kinds: []refcose.Kind{refcose.KSignTagged}, MaxExtra: 1, MaxSigner: 12, Cheap: true}, ForeignPct: 50}, ent)
+		if w != nil {
+			pool = append(pool, c19Item{w.B, w.Dec})
+			r.Probe("pool-holds-cose-sign-with-up-to-12-signers")
 		}
 	}
 	n := len(pool)
